@@ -67,11 +67,26 @@ CLAIMS = {
                      "(exact_errors, discard_bom, drop_doctype; tokens and trees).",
                 note=TOK_NOTE, tech="reflective Coq checks on char sets (fast path = slow path) + option metamorphic oracle"),
     "C09": dict(cat="proof", ref="DESIGN.md section 5 C09",
-                text="PARTIAL proof. Props/C09.v proves on the regenerated table that no peek/raw-discard path can drop a CR or LF "
-                     "uncounted and that every bulk read stops at line breaks (SIMD sets consistent). Per-token line numbers are "
-                     "checked on the implementation against 1 + breaks(input consumed), the consumed count coming from the "
-                     "interpreter's ghost counter (validated by token-stream correspondence).",
-                note=TOK_NOTE, tech="reflective Coq checks (raw_discard_safe, line-break sets) + per-token line oracle"),
+                text="PARTIAL proof. Props/C09.v proves the law itself for ALL inputs on the interpreter over the regenerated html "
+                     "table (TokIR/LineInv.v, generic in the table; Inst/InstLine.v): reference semantics (html flavour, exact_errors = "
+                     "true, flat queue, whole input fed at once then end(), any start state, any sink answers incl. script / raw-text "
+                     "switches), every delivered token (parse errors and EOF included) carries line = 1 + breaks(first k characters of "
+                     "the input), k the interpreter's ghost consumed-counter, breaks = LF + lone CR + CR LF once; a CR that is the last "
+                     "consumed character is counted and the LF after it is not counted again. Proved through a step-boundary invariant "
+                     "(consumed prefix / unread queue / eat() look-ahead stash / raw-consumed character-reference buffer that may be "
+                     "put back / ignore_lf / reconsume / temp_buf discipline) kept by every step, under decidable table conditions "
+                     "instantiated on the regenerated table on every run (start_ok: peek + raw discard only of characters statically "
+                     "not CR/LF, DiscardWs only on a peeked character, eat patterns free of line breaks, reconsume only into get_char "
+                     "states, eat states entered with empty temp_buf, tags emitted with empty temp_buf; eof_ok: EOF arms neither read "
+                     "nor discard) and the hypothesis that entity-table keys contain no CR/LF, discharged for the pinned entity table. "
+                     "Earlier reflective facts kept (raw_discard_safe, bulk sets stop at line breaks, SIMD sets consistent). Still "
+                     "_partial / tested: exact_errors = false with bulk reads and the SIMD newline count (covered statically by "
+                     "sets_adequate / simd_consistent and differentially), chunked feeding (reduced to this theorem by the C03 chunk "
+                     "theorems, also for exact mode only), that the EOF token has k = |input| (needs termination), the Rust code vs the "
+                     "interpreter (token-stream correspondence incl. line and consumed count), and the tree builder forwarding the "
+                     "number to set_current_line. Per-token line numbers are still checked on the implementation against "
+                     "1 + breaks(input consumed).",
+                note=TOK_NOTE, tech="Coq invariant proof over the tokenizer interpreter (all inputs) under reflective table checks on the regenerated html table + per-token line oracle on the implementation"),
     "C15": dict(cat="proof", ref="DESIGN.md section 5 C15",
                 text="PARTIAL proof. Props/C15.v proves on the regenerated xml table: bulk sets contain CR and NUL and every "
                      "singled-out character; reads come first; and chunk independence of the tokenizer's reference semantics (flat "
